@@ -1,0 +1,10 @@
+//go:build verif
+
+// Verification hooks for the external verification harness. Compiled only with -tags verif.
+package jwt
+
+// VerifCleanSubject exposes cleanSubject.
+func VerifCleanSubject(s string) string { return cleanSubject(s) }
+
+// VerifUserConfigRE returns the source of the credentials regular expression.
+func VerifUserConfigRE() string { return userConfigRE.String() }
